@@ -118,8 +118,8 @@ def _path_pre(eq, lhs, pts):
     try:
         P0, P1, P2 = _vals(pts[0]), _vals(pts[1]), _vals(pts[2])
         op0 = OperatorTemplate(name='op0', equations=[f"{lhs}' = -{lhs}"], variables={lhs: f'output({P1[lhs]})'})
-        variables = {k: v for k, v in P0.items() if k != lhs}
-        variables[lhs] = f'output({P0[lhs]})'
+        variables = {lhs: f'output({P0[lhs]})'}          # declared first: relabelled before the user constants are registered
+        variables.update({k: v for k, v in P0.items() if k != lhs})
         op = OperatorTemplate(name='op', equations=[eq], variables=variables)
         c = CircuitTemplate(name='c', nodes={'A': NodeTemplate(name='nA', operators=[op0]), 'B': NodeTemplate(name='nB', operators=[op])})
         func, args, names, smap = _compile(c)
@@ -527,7 +527,8 @@ def coq_lists(ctx, tag, defs, evals, shard_note=""):
 def compare_expr(ctx, cases, outs, tag):
     """-> (bad, notsame, chain): bad = {case index: [spelling indices whose real values differ from the Coq value of the string]};
     notsame = cases whose spellings do not all have the same Coq value at some point (a harness printer error, never a verdict);
-    chain = case indices whose `pre` spelling violates the guard no_label_chain"""
+    chain = (case index, spelling index) whose layout relabels a variable `a` (pre: the left-hand side, multi: the doubly fed
+    input) while the spelling also mentions a user variable a_v1: violates the guard no_label_chain"""
     bad, notsame, chain = {}, [], []
     shard = 40
     for s in range(0, len(cases), shard):
@@ -541,8 +542,9 @@ def compare_expr(ctx, cases, outs, tag):
                 for p, it in its.items():
                     per_point.setdefault(p, []).append(it)
             same.append(clist([clist(v) for v in per_point.values()]))
-            pre = [sp["s"] for sp in c["spellings"] if sp.get("layout") == "pre"]
-            gch.append(f"({cstr(c['lhs'])}, {cstr(pre[0] if pre else '0')})")
+            for sp in c["spellings"]:
+                dup = {"pre": c["lhs"], "multi": c.get("u")}.get(sp.get("layout", "pair"))
+                gch.append(f"({cstr(dup or 'x')}, {cstr(sp['s'] if dup else '0')})")
         defs = (f"Definition cases : list (list item) := {clist(units)}.\n"
                 f"Definition same : list (list (list item)) := {clist(same)}.\n"
                 f"Definition gch : list (string * string) := {clist(gch)}.\n")
@@ -551,7 +553,8 @@ def compare_expr(ctx, cases, outs, tag):
         for j in l[0]:
             ci, si = owner[j]
             bad.setdefault(s + ci, []).append(si)
-        notsame += [s + i for i in l[1]]; chain += [s + i for i in l[2]]
+        notsame += [s + i for i in l[1]]
+        chain += [(s + owner[j][0], owner[j][1]) for j in l[2]]
     return bad, notsame, chain
 
 
@@ -706,33 +709,34 @@ def check(ctx):
     bad_spec, bad_impl, crashed, guard_viol = [], [], [], {}
     crashed += [i for i, o in enumerate(outs) if isinstance(o, dict) and o.get("err") in ("worker-died", "timeout", "exception")]
     # --- expr
-    def chain_py(c):
+    def chain_py(c, k):
+        sp = c["spellings"][k]
+        dup = {"pre": c["lhs"], "multi": c.get("u")}.get(sp.get("layout", "pair"))
         ids = idents(tuple_ast(c["ast"]))
-        return c["lhs"] in ids and (c["lhs"] + "_v1") in ids
-    def only_pre_failed(c, o, bad_sp=None):
-        """the failure is confined to the spelling compiled in the `pre` layout"""
-        if bad_sp is None:
-            bad_sp = [k for k, x in enumerate(o) if isinstance(x["b"], dict) or any(isinstance(a, dict) for a in x["a"])] if not isinstance(o, dict) else []
-        return bool(bad_sp) and all(c["spellings"][k].get("layout") == "pre" for k in bad_sp)
+        return bool(dup) and dup in ids and (dup + "_v1") in ids
+    def failed_spellings(o):
+        return [k for k, x in enumerate(o) if isinstance(x["b"], dict) or any(isinstance(a, dict) for a in x["a"])] if not isinstance(o, dict) else []
     ie = [i for i in K("expr") if i not in crashed]
     cr = [i for i in ie if crashed_expr(outs[i])]
     crashed += cr
     for i in cr:
-        if chain_py(cases[i]) and only_pre_failed(cases[i], outs[i]):
+        fs = failed_spellings(outs[i])
+        if fs and all(chain_py(cases[i], k) for k in fs):
             guard_viol[i] = ["no_label_chain"]
     ie = [i for i in ie if i not in cr]
     b, notsame, chain = compare_expr(ctx, [cases[i] for i in ie], [outs[i] for i in ie], "main") if ie else ({}, [], [])
     assert not notsame, f"harness printer produced spellings with different Coq values: {[cases[ie[j]]['spellings'] for j in notsame[:2]]}"
-    assert sorted(chain) == [j for j, i in enumerate(ie) if chain_py(cases[i])], "guard no_label_chain: Coq and harness disagree"
+    assert sorted(chain) == sorted((j, k) for j, i in enumerate(ie) for k in range(len(cases[i]["spellings"])) if chain_py(cases[i], k)), \
+        "guard no_label_chain: Coq and harness disagree"
     for j, bad_sp in b.items():
         i = ie[j]
         bad_spec.append(i); bad_impl.append(i)
-        if j in chain and only_pre_failed(cases[i], outs[i], bad_sp):
+        if all((j, k) in chain for k in bad_sp):
             guard_viol[i] = ["no_label_chain"]
     n_eval = sum(len(B_POINTS[sp.get("layout", "pair")]) + 2 for i in ie for sp in cases[i]["spellings"])
     lay = {l: sum(1 for i in ie for sp in cases[i]["spellings"] if sp.get("layout", "pair") == l) for l in B_POINTS}
     ctx.note(f"expr: {len(ie)} expressions x 3 spellings, layouts {lay}, {n_eval} evaluations (2 direct + 2..4 generated-code per spelling); "
-             f"mismatching cases {len(b)} (of which outside guard no_label_chain: {sum(1 for j in b if ie[j] in guard_viol)}), raised {len(cr)}")
+             f"mismatching cases {len(b)} (of which violating guard no_label_chain: {sum(1 for j in b if ie[j] in guard_viol)}), raised {len(cr)}")
     # --- lhs
     il = [i for i in K("lhs") if i not in crashed]
     if il:
@@ -754,7 +758,7 @@ def check(ctx):
         assert sorted(g) == [j for j, i in enumerate(ic) if cases[i].get("finding_guard") == "no_call_in_divisor"], "guard no_call_in_divisor: Coq and generator disagree"
         for j in b:
             bad_spec.append(ic[j]); bad_impl.append(ic[j])
-        ctx.note(f"call: {len(ic)} equations with index()/no_op() helpers; disagreements {len(b)} (outside guard no_call_in_divisor: {sum(1 for j in b if j in g)})")
+        ctx.note(f"call: {len(ic)} equations with index()/no_op() helpers; disagreements {len(b)} (of which violating guard no_call_in_divisor: {sum(1 for j in b if j in g)})")
     # --- support: values never decide (tolerance); an exception does (it is exact)
     isu = [i for i in K("support") if i not in crashed]
     if isu:
